@@ -313,6 +313,45 @@ func checkC05(c C05Case, st *evid.Stats) error {
 							return failf("ambiguous prefix %q with attached value changed option state: %s", p, d)
 						}
 					}
+					// the same ambiguous text right behind an option that can still take a value (optional-value option
+					// without value, multi-valued option below its maximum): an option-looking word is never taken as
+					// that value, so it is still interpreted - and rejected as ambiguous
+					openers := 0
+					seenOpener := map[*OptSpec]bool{}
+					for _, gk := range keys {
+						g := lv.Visible[gk].Spec
+						if gk == "-" || gk != g.Name || seenOpener[g] || openers >= 2 || lv.Visible[gk].Help {
+							continue
+						}
+						var lead []string
+						switch {
+						case g.Kind.IsOptional():
+							lead = []string{"--" + gk}
+						case g.Kind.IsMulti() && g.Min < g.Max:
+							lead = []string{"--" + gk}
+							for j := 0; j < g.Min; j++ {
+								lead = append(lead, valueFor(g))
+							}
+						default:
+							continue
+						}
+						seenOpener[g] = true
+						openers++
+						argvO := append(append(append([]string{}, c.Path...), lead...), argvP[len(c.Path)])
+						O := Run(c.Spec, argvO, RunOpts{})
+						st.Class("ambiguous-behind-an-open-ended-option")
+						if O.Panic != "" {
+							return failf("panic: %s", O.Panic)
+						}
+						if !O.ParseFailed {
+							return failf("prefix %q matches %v at level %s and is not a name itself, yet behind the open-ended option %q Parse(%s) succeeded (taken as a value or silently resolved)", p, M, lv.Path, gk, q(argvO))
+						}
+						for _, cand := range M {
+							if !strings.Contains(O.ParseErr, cand) {
+								return failf("ambiguity error %q for %s does not list candidate %q of %v", O.ParseErr, q(argvO), cand, M)
+							}
+						}
+					}
 					if len(c.Path) > 0 {
 						root := c.Spec.Levels()
 						if rk, _ := resolve(root, p); rk != "" && !(root.Visible[rk].Spec.Kind.IsMulti() && root.Visible[rk].Spec.Max > root.Visible[rk].Spec.Min) {
